@@ -1,9 +1,10 @@
 (* Driver of the extracted VmStack model.
    Input, one case per line:  <id> <fxbits> <rlimit> <slimit> <racts as S-expression>
-     fxbits = 4 characters 0/1: fx_throw fx_error fx_call fx_decl
+     fxbits = 6 characters 0/1: fx_throw fx_error fx_call fx_decl fx_modlink fx_pending
    Output, one line per case: <id> TAB <observations>  with observations separated by ';':
      P:<id>:<frames>:<stack>:<hdepth>    L:<Recursion|StackSize>    D:<V|T|U|X>:<frames>:<stack>:<hdepth>
-     (V = Ok, T = catchable error, U = uncatchable engine error, X = engine panic) then F:<frames>:<stack>:<hdepth> (final) *)
+     (V = Ok, T = catchable error, U = uncatchable engine error, X = engine panic) U = OUntidy;
+     after every top-level entry E:<frames>:<stack>:<hdepth>:<pending>; then F:<frames>:<stack>:<hdepth> (final) *)
 open Vmstack
 
 type sexp = A of string | L of sexp list
@@ -70,8 +71,10 @@ let rec act_of (x : sexp) : act =
   | L [A "ret"] -> AReturn
   | L [A "yield"] -> AYield
   | L [A "gencreate"] -> AGenCreate
+  | L [A "await"] -> AAwait
+  | L [A "exception"] -> AException
   | L [A "throw"] -> AThrow
-  | L [A "rethrow"; b] -> ARethrow (boolean b)
+  | L [A "rethrow"] -> ARethrow
   | L [A "error"; b] -> AError (boolean b)
   | _ -> failwith "act"
 and acts_of (x : sexp) : acts =
@@ -91,6 +94,7 @@ and ract_of (x : sexp) : ract =
   | L [A "resume"; g; A k; body] ->
       RResume (num g, (match k with "next" -> KNext | "return" -> KRet | "throw" -> KThr | _ -> failwith "kind"), acts_of body)
   | L [A "block"; body] -> RBlock (racts_of body)
+  | L [A "modlink"; rg] -> RHostModuleLink (num rg)
   | L [A "rreturn"] -> RReturn
   | L [A "rthrow"; b] -> RThrow (boolean b)
   | L [A "propagate"; b] -> RPropagate (boolean b)
@@ -109,6 +113,7 @@ let show_obs (o : obs) : string =
       Printf.sprintf "D:%s:%d:%d:%d"
         (match r with ROk -> "V" | RErr true -> "T" | RErr false -> "U" | RPanic -> "X")
         (int_of_nat n) (int_of_nat s) (int_of_nat h)
+  | OUntidy -> "U"
 
 let () =
   try
@@ -123,12 +128,20 @@ let () =
            | [id; fxb; rl; sl; tree] ->
              (try
                 let b i = fxb.[i] = '1' in
-                let fx = { fx_throw = b 0; fx_error = b 1; fx_call = b 2; fx_decl = b 3 } in
+                let fx = { fx_throw = b 0; fx_error = b 1; fx_call = b 2; fx_decl = b 3; fx_modlink = b 4; fx_pending = b 5 } in
                 let l = racts_of (parse (tokenize tree)) in
                 let v0 = init (nat_of_int (int_of_string rl)) (nat_of_int (int_of_string sl)) in
-                let (v, obs) = run_host fx v0 l in
+                (* the top-level entries one by one: after each, E:<frames>:<stack>:<hdepth>:<pending> *)
+                let rec go v l acc =
+                  match l with
+                  | RNil -> (v, List.rev acc)
+                  | RCons (e, rest) ->
+                    let (v', obs) = run_host fx v (RCons (e, RNil)) in
+                    let mark = Printf.sprintf "E:%d:%d:%d:%d" (List.length v'.frames) (int_of_nat v'.stack) (int_of_nat v'.hdepth) (if v'.pending then 1 else 0) in
+                    go v' rest (mark :: List.rev_append (List.map show_obs obs) acc) in
+                let (v, out) = go v0 l [] in
                 let fin = Printf.sprintf "F:%d:%d:%d" (List.length v.frames) (int_of_nat v.stack) (int_of_nat v.hdepth) in
-                print_string (id ^ "\t" ^ String.concat ";" (List.map show_obs obs @ [fin]) ^ "\n")
+                print_string (id ^ "\t" ^ String.concat ";" (out @ [fin]) ^ "\n")
               with e -> print_string (id ^ "\tERROR " ^ Printexc.to_string e ^ "\n"))
            | _ -> print_string "?\tERROR bad line\n")
       end
